@@ -41,8 +41,17 @@ def _reference(h, v):
     return None
 
 
+def _eqv(a, b):
+    """== with NaN equal to NaN"""
+    if isinstance(a, float) and isinstance(b, float) and a != a and b != b:
+        return True
+    return a == b
+
+
 def _same_instant(got, ref):
     import datetime
+    if isinstance(ref, float):
+        return _eqv(float(got), ref)
     if isinstance(ref, (datetime.datetime, datetime.time)):
         # same wall clock AND same offset (== on aware values only compares the instant; on naive ones the fields)
         return got == ref and got.utcoffset() == ref.utcoffset() and got.replace(tzinfo=None) == ref.replace(tzinfo=None)
@@ -71,14 +80,32 @@ def _cases(tier):
                 yield {"path": "".join(p), "leaf": leaf, "variant": variant}
                 if variant in ("plain", "absent"):
                     yield {"path": "".join(p), "leaf": leaf, "variant": variant, "key": "orderIds"}
+    # many convertible fields in one model (the decorator's path list gets long)
+    for n in (2, 3, 4, 5, 6, 7, 9, 10, 11, 15):
+        for p in ("", "O", "L", "D"):
+            yield {"path": p, "leaf": "IntString", "variant": "plain", "many": n}
+    # every numeric spelling of the C09 grammar that the int / float parsers accept, at the positions where attrs (converters off)
+    # hands the string to the class constructor instead of the parser
+    from props import c09
+    for cls, st in c09.grammar(tier):
+        if not cls.startswith("num") or len(st) > 40:
+            continue
+        row = c09.accept_row(st)
+        leaf = "IntString" if row.get("IntString") == "acc" else ("FloatString" if row.get("FloatString") == "acc" else None)
+        if leaf:
+            for p in ("", "O", "L"):
+                yield {"path": p, "leaf": leaf, "variant": "plain", "w": st}
 
 
 KEY = ["a"]
+OVERRIDE = [None]     # a grammar string replacing the leaf's standard spelling
 
 
 def _value(path, leaf, second=False):
     """JSON value inducing `path` below the top-level Optional (which is realised by a second sample)"""
     w = (LEAVES2 if second else LEAVES)[leaf]
+    if OVERRIDE[0] is not None and not second:
+        w = OVERRIDE[0]
     if not path:
         return w
     t, rest = path[0], path[1:]
@@ -119,7 +146,10 @@ def _samples(case):
     path, leaf = case["path"], case["leaf"]
     # siblings: a plain pseudo-typed field before and after the pathed one, an int and a plain string
     KEY[0] = case.get("key", "a")
+    OVERRIDE[0] = case.get("w")
     base = {"p0": "9", "a": _value(path, leaf), "b": 1, "c": "text", "d": "5.5"}
+    for i in range(case.get("many", 0)):
+        base[f"e{i:02d}"] = ["3", "2.5", ["4"], "8"][i % 4]
     out = [base]
     if path.startswith("O"):
         out.append({"p0": "8", "b": 2, "c": "text2", "d": "4.5"} if case["variant"] == "absent"
@@ -160,7 +190,7 @@ def _same(got, exp, h, orig=None):
         return got is None
     k = program.hint_kind(h)
     if k == "pseudo":
-        return isinstance(got, h) and got == exp and (orig is None or _reference(h, orig) is None or _same_instant(got, _reference(h, orig)))
+        return isinstance(got, h) and _eqv(got, exp) and (orig is None or _reference(h, orig) is None or _same_instant(got, _reference(h, orig)))
     if k == "union":
         args = [a for a in typing.get_args(h) if a is not type(None)]
         if len(args) == 1:
@@ -186,7 +216,7 @@ def execute(case):
         for conv in (True, False):
             for meta in (False, True, "slots"):
                 shape = ["p:" + (case["path"][:i] or "-") for i in range(0 if not case["path"] else 1, len(case["path"]) + 1)] \
-                    + ["leaf:" + case["leaf"]]
+                    + ["leaf:" + case["leaf"]] + (["many_fields"] if case.get("many", 0) > 3 else [])
                 site = f"{fw}:{'conv' if conv else 'noconv'}"
                 kw = {"post_init_converters": conv}
                 if meta == "slots":
@@ -242,7 +272,8 @@ def execute(case):
                                         V("converted_value_wrong" if name == attr.get(key, "a") else "other_field_modified",
                                           f"sample#{i} field {name}: annotation {h!r}, original {orig!r}, holds {got!r} ({type(got).__name__}), "
                                           f"expected {exp!r}")
-                                elif fw == "attrs" and (name in ("p0", "d") or (name == attr.get(key, "a") and case["path"] in ("", "O")
+                                elif fw == "attrs" and (name in ("p0", "d") or (name[:1] == "e" and name[1:].isdigit() and isinstance(orig, str))
+                                                        or (name == attr.get(key, "a") and case["path"] in ("", "O")
                                                                                   and case["leaf"] in ("IntString", "FloatString"))):
                                     exp = _expect(h, orig)
                                     if not _same(got, exp, h, orig):
